@@ -24,7 +24,7 @@ RULE = (
     "Non-trivial: >=1 definition outside the closure; distinct by (namespace, victim, replacement)."
 )
 ASSUMPTIONS = ["file names stay valid (a malformed file name in a lookup directory may legitimately be reported)"]
-MIN_MONITORS = {"baseline": 1500, "replacement": 4500, "print-log-compare": 4500}
+MIN_MONITORS = {"baseline": 1500, "replacement": 4500, "print-log-compare": 4500, "shadow-namespace": 400}
 THOROUGH_MIN_SCALE = 10
 
 REPLACEMENTS = {
@@ -174,6 +174,59 @@ def twin_experiment(ctx, pydsdl, rng, ns, base, paths, call, clos, case):
         shutil.rmtree(base / "twinlk", ignore_errors=True)
 
 
+def shadow_experiment(ctx, pydsdl, rng, ns, base, paths, call, clos, case):
+    """
+    A definition of the closure, in namespace N, refers to r.A.T.M.m by its full name.  An unreferenced file is added that defines
+    N.r.A.T.M.m - a nested namespace of N that is named like the root namespace r - where it is not a target (anywhere for
+    read_files; under a lookup directory for read_namespace).  A full name is searched as it is written, so this file is outside
+    the closure: whatever its text is, the outcome and the print log stay the same.
+    """
+    defs = ns["defs"]
+    cand = []
+    for ci in sorted(clos):
+        c = defs[ci]
+        if call["api"] == "read_namespace" and c["root"] == 0:
+            continue
+        for r in c["refs"]:
+            if r.get("spell") == "absolute" and r.get("target") is not None:
+                cand.append((ci, r["target"]))
+    if not cand:
+        return
+    ci, oi = rng.choice(cand)
+    c, o = defs[ci], defs[oi]
+    shadow = (base / ns["roots"][c["root"]]["dir"]).joinpath(*c["ns"]).joinpath(*GN.full_name(ns, o).split(".")[:-1]) / (
+        "%s.%d.%d.dsdl" % (o["short"], o["ver"][0], o["ver"][1]))
+    if shadow.exists():
+        return
+    top = (base / ns["roots"][c["root"]]["dir"]).joinpath(*c["ns"]) / ns["roots"][o["root"]]["name"]
+    existed = top.exists()
+    try:
+        shadow.parent.mkdir(parents=True, exist_ok=True)
+        shadow.write_text("uint64 PV_ID = 515151\nuint16 shadow_marker\n@sealed\n")
+        ctx.mon("baseline")
+        sig1, prints1, _ = perform(pydsdl, ns, base, paths, call)
+        for kind in rng.sample(["garbage", "failing-assert", "print", "bad-width", "syntax-error", "other-extent", "missing-sealed", "service", "unresolvable-reference"], 3):
+            shadow.write_text(REPLACEMENTS[kind], encoding="utf-8")
+            ctx.mon("replacement")
+            ctx.mon("shadow-namespace")
+            sig2, prints2, _ = perform(pydsdl, ns, base, paths, call)
+            c2 = dict(case, kind="shadow/" + kind, victim=os.path.relpath(str(shadow), base), referrer=str(GN.rel_path(ns, c)), call=call)
+            if sig2 != sig1:
+                ctx.violation("C19/outcome-changed/shadow-namespace", "%s: %s refers to %s by its full name; replacing the unreferenced %s by %s changed the outcome: %r -> %r" % (
+                    call["api"], c2["referrer"], GN.full_name(ns, o), c2["victim"], kind, str(sig1)[:300], str(sig2)[:300]), c2)
+            ctx.mon("print-log-compare")
+            if sorted(prints2) != sorted(prints1):
+                ctx.violation("C19/print-log-changed/shadow-namespace", "print log changed: %r -> %r" % (prints1[:5], prints2[:5]), c2)
+            if any("VICTIM-WAS-EVALUATED" in x for _p, _l, x in prints2):
+                ctx.violation("C19/victim-evaluated", "@print of the unreferenced %s was delivered" % c2["victim"], c2)
+            ctx.case((GN.signature(ns), ci, oi, "shadow", kind, call["api"]), True, classes=["api-" + call["api"], "replacement-shadow-namespace"])
+    finally:
+        if shadow.exists():
+            shadow.unlink()
+        if not existed:
+            shutil.rmtree(top, ignore_errors=True)
+
+
 def run_case(ctx, pydsdl, seed, nrep, workdir):
     rng = random.Random(seed)
     ns = GN.gen_namespace(rng, n_roots=rng.choice([2, 2, 3]), deprecated=rng.choice([0.0, 0.2, 0.5]))
@@ -226,6 +279,8 @@ def run_case(ctx, pydsdl, seed, nrep, workdir):
             return ns, 0
         if rng.random() < 0.5:
             twin_experiment(ctx, pydsdl, rng, ns, base, paths, call, clos, case)
+        if rng.random() < 0.6:
+            shadow_experiment(ctx, pydsdl, rng, ns, base, paths, call, clos, case)
         if not outside:
             return ns, 0
         opened_victims = 0
